@@ -8,6 +8,8 @@ import random
 import struct
 import uuid
 
+import os
+
 import boot  # noqa: F401
 from core import corr, oracle
 from lib import coop, noiseserver
@@ -128,7 +130,6 @@ class World(object):
                     # layer is still inside its receive loop: DISCONNECT goes down, the network layer closes and the layer right above
                     # it is told DISCONNECTED at once
                     w.reentrant_disconnects += 1
-                    coop.log(("disconnect", w.conn_no()))
                     self.getStack().emitEvent(YowLayerEvent(YowNetworkLayer.EVENT_STATE_DISCONNECTED, reason="closed by the stack"))
 
             def send(self, d):
@@ -171,6 +172,14 @@ def run_case(chk, stream, case):
     w = World(case)
     c = coop.Coop()
     w.conn_no = lambda: st["conn"]
+    # the moment a disconnect takes effect in the noise layer — the replacement of its protocol object, stream and queue — is what the model's
+    # `disconnect` action stands for (the layer may have to wait for a writer before it gets there: a scheduling point of its own)
+    _orig_new = w.noise._new_noiseprotocol
+
+    def _new_noiseprotocol_logged():
+        coop.log(("disconnect", st["conn"]))
+        return _orig_new()
+    w.noise._new_noiseprotocol = _new_noiseprotocol_logged
     ctx = "case %s" % dict((k, v) for k, v in case.items())
     st = {"conn": 0, "server": None, "segs": {}, "done": False, "problem": None, "sent_frames": [], "hello_sent": False, "app_go": False, "app_done": False, "corrupt_conns": set(), "mark": (0, 0)}
     chk.hit("variant:" + case["variant"], "cuts:%d" % len(case["cuts"]), "corrupt:%s" % case["corrupt"])
@@ -220,7 +229,6 @@ def run_case(chk, stream, case):
             w.bottom.receive(ch)
 
     def disconnect():
-        coop.log(("disconnect", st["conn"]))
         w.stack.emitEvent(YowLayerEvent(YowNetworkLayer.EVENT_STATE_DISCONNECTED, reason="cut"))
 
     def network():
@@ -427,6 +435,9 @@ def replay_on_model(chk, c, w, st, ctx):
             fails.append(corr("replay", "%s: the model's network thread does not come to rest before %s" % (ctx, line)))
             return fails
         out = ask(line)
+        if os.environ.get("VERIF_DEBUG"):
+            import sys as _sys
+            _sys.stderr.write("REPLAY t%s %-28s -> %s | %s\n" % (idx, line, out, d.ask("hs show")))
         if line == "connect":
             nworkers[0] += 1
         if out in ("not-allowed", "bad-op"):
